@@ -66,6 +66,7 @@ hx_log_esc(const char *s, size_t n)
 double hx_now = 1000000000.0;
 double hx_stop = 0.0;		/* the loop driver's target time */
 double hx_late = 0.0;		/* extra lateness to add to the next sleep */
+double hx_mono_off = 900000000.0;	/* wall clock minus monotonic clock; grows when the wall clock is stepped */
 int hx_iter_log = 1;
 
 int
@@ -73,7 +74,7 @@ clock_gettime(clockid_t id, struct timespec *ts)
 {
 	double t = hx_now;
 	if (id == CLOCK_MONOTONIC || id == CLOCK_MONOTONIC_RAW || id == CLOCK_BOOTTIME) {
-		t -= 900000000.0;
+		t -= hx_mono_off;
 	}
 	ts->tv_sec = (time_t)t;
 	ts->tv_nsec = (long)((t - (double)ts->tv_sec) * 1e9);
